@@ -3,7 +3,7 @@ from vf.extract import FnC, Sel, Mod
 from vf.unit import Unit, Lemma
 from contracts import common as K
 
-P_REC = ('C03', 'C01', 'C07', 'C12', 'C08', 'C14', 'C15', 'C16')
+P_REC = ('C03', 'C01', 'C07', 'C12', 'C08', 'C14', 'C15', 'C16', 'C09')
 
 INIT = {'inner_iv_init': FnC(ret='r', props=('C09', 'C03'), ensures=[
     ('iv', ('C09', 'C03'), 'r.iv@ == cipher.enc_fn()(iv@)'),
